@@ -6,7 +6,7 @@ MUT=/var/tmp/acryo-mut
 if [ ! -d $MUT ]; then git -C /repo worktree add -q --detach $MUT HEAD; fi
 git -C $MUT checkout -q --detach $(git -C /repo rev-parse HEAD) 2>/dev/null
 git -C $MUT checkout -q -- . && git -C $MUT clean -fdq
-git -C $MUT apply "$PATCH" || { echo "PATCH DOES NOT APPLY"; exit 3; }
+git -C $MUT apply --recount "$PATCH" || { echo "PATCH DOES NOT APPLY"; exit 3; }
 cd /verif && ACRYO_SRC=$MUT ./vcheck $ID --no-evidence --replay-dir /var/tmp/acryo-mut-replays "$@"
 rc=$?
 git -C $MUT checkout -q -- . && git -C $MUT clean -fdq
